@@ -1,6 +1,7 @@
 package vc
 
 import (
+	"strings"
 	"fmt"
 	"go/token"
 	"go/types"
@@ -36,6 +37,7 @@ func (e *Exec) step(fr *Frame, st *State, in ssa.Instruction, b *ssa.BasicBlock,
 	case *ssa.BinOp:
 		fr.vals[x] = e.binop(fr, st, x)
 	case *ssa.Store:
+		e.onStore(fr, st, x, c)
 		e.exactUse(fr, st, x.Val, "store")
 		e.store(fr, st, e.val(fr, x.Addr), e.val(fr, x.Val), x.Val.Type())
 	case *ssa.MapUpdate:
@@ -1004,4 +1006,50 @@ func capturedOnly(x *ssa.Alloc) bool {
 		}
 	}
 	return true
+}
+
+// onStore checks the contract's on-store assertions for a store to a struct field.
+func (e *Exec) onStore(fr *Frame, st *State, x *ssa.Store, c *Contract) {
+	if c == nil || len(c.OnStores) == 0 || fr.parent != nil {
+		return
+	}
+	fa, ok := x.Addr.(*ssa.FieldAddr)
+	if !ok {
+		return
+	}
+	stt := derefStruct(fa.X.Type())
+	if stt == nil {
+		return
+	}
+	fname := stt.s.Field(fa.Field).Name()
+	for i, os := range c.OnStores {
+		field, konst := os.Field, ""
+		if k := strings.Index(field, "="); k >= 0 {
+			field, konst = field[:k], field[k+1:]
+		}
+		if field != fname {
+			continue
+		}
+		if konst != "" {
+			// only stores of the named package-level constant
+			cv, isConst := x.Val.(*ssa.Const)
+			nc, _ := fr.fn.Pkg.Members[konst].(*ssa.NamedConst)
+			if !isConst || nc == nil || cv.Value == nil || nc.Value.Value == nil || cv.Value.ExactString() != nc.Value.Value.ExactString() {
+				continue
+			}
+		}
+		os.used++
+		ft := stt.s.Field(fa.Field).Type()
+		was := e.load(fr, st, e.val(fr, fa), ft)
+		now := e.val(fr, x.Val)
+		en := e.newEnv(fr, st, e.entry)
+		en.point = x
+		en.vars["was"] = ev{was, ft}
+		en.vars["now"] = ev{now, ft}
+		lbl := os.Label
+		if lbl == "" {
+			lbl = fmt.Sprint(i + 1)
+		}
+		e.oblige(st, "on-store", os.Field+":"+lbl, e.evalClause(en, &Clause{Text: os.Text, Expr: os.Expr}), e.posOf(x))
+	}
 }
